@@ -236,3 +236,19 @@ MUTANTS["C09"] = [
     M("twin-verbosity-if-chain", DCF, '        elif args.has_option_token("-vv"):\n            io.set_verbosity(VERY_VERBOSE)\n        elif args.has_option_token("-v"):\n            io.set_verbosity(VERBOSE)',
       '        elif args.has_option_token("-v"):\n            io.set_verbosity(VERBOSE)\n        elif args.has_option_token("-vv"):\n            io.set_verbosity(VERY_VERBOSE)', twin=True),
 ]
+
+TKP = "src/clikit/args/token_parser.py"
+SAR = "src/clikit/args/string_args.py"
+
+MUTANTS["C08"] = [
+    M("f7-regression", TKP, "        elif self._next_ is None:\n            # A trailing backslash is a literal backslash\n            sequence = \"\\\\\"\n", "", expect="C08-R1"),
+    M("no-advance-plain-char", TKP, "            else:\n                token += self._current\n                self._next()\n\n        return token", "            else:\n                token += self._current\n\n        return token", expect="C08-R2"),
+    M("no-advance-space", TKP, "            if self._current.isspace():\n                # Skip spaces\n                self._next()\n\n                continue", "            if self._current.isspace():\n                # Skip spaces\n                continue", expect="C08-R2"),
+    M("use-after-advance", TKP, "        # Skip first delimiter\n        self._next()\n        while self._is_valid():", "        # Skip first delimiter\n        self._next()\n        string += self._current\n        while self._is_valid():", expect="C08-R1"),
+    M("option-tokens-all", SAR, 'itertools.takewhile(lambda arg: arg != "--", self.tokens)', 'itertools.takewhile(lambda arg: True, self.tokens)', expect="C08-R3"),
+    M("has-option-token-all-tokens", AVA, "        return token in self._option_tokens", "        return token in self._tokens", expect="C08-R3"),
+    M("next-does-not-increment", TKP, "        self._cursor += 1\n        self._current = self._next_", "        self._current = self._next_", expect="C08-R2"),
+    M("twin-is-not-none-loop", TKP, "        while self._is_valid():\n            if self._current.isspace():\n                # Skip spaces", "        while self._current is not None:\n            if self._current.isspace():\n                # Skip spaces", twin=True),
+    M("twin-else-continue", TKP, "                self._next()\n\n                continue\n\n            if self._is_valid():\n                tokens.append(self._parse_token())",
+      "                self._next()\n            else:\n                tokens.append(self._parse_token())", twin=True),
+]
